@@ -522,7 +522,12 @@ class Val:
         if k == "none":
             return None
         if k == "any":
-            return c.pick(ANY_VALUES, "any")
+            v = c.pick(ANY_VALUES, "any")
+            # a value of a constrained Any satisfies the constraints of its own JSON type
+            fam = {int: "num", float: "num", str: "str", list: "arr", dict: "obj"}.get(type(v))
+            if fam:
+                self.constrain(cs, v, fam)
+            return v
         if k == "opt":
             if depth <= 0 or c.flag("none"):
                 return None
